@@ -598,38 +598,67 @@ func c20trampoline(p *core.Prog, f *ssa.Function) (bool, string) {
 }
 
 func c20curryCall(p *core.Prog, f *ssa.Function) (bool, string) {
-	locks := core.LocksIn(f, core.Lockset{})
+	locks := core.ComputeLocks(p).At
 	base := f.Params[0].Name()
 	lock := base + ".callM"
 	var flagTest, fnCall, app ssa.Instruction
 	var resStore *ssa.Store
-	core.Instrs(f, func(ins ssa.Instruction) {
+	// the four steps may sit in Call itself or in a closure that Call hands to a lock wrapper
+	var bf *ssa.Function
+	split := false
+	core.InstrsDeep(f, func(fn *ssa.Function, ins ssa.Instruction) {
+		hit := false
 		switch x := ins.(type) {
 		case *ssa.Call:
 			if flagRead(p, x, base, "isDone", 0) {
-				flagTest = ins
+				flagTest, hit = ins, true
 			}
 			if core.FieldKey(x.Call.Value) == "CurryDef.fn" {
-				fnCall = ins
+				fnCall, hit = ins, true
 			}
 			if core.IsBuiltin(&x.Call, "append") && core.FieldKey(x.Call.Args[0]) == "CurryDef.args" {
-				app = ins
+				app, hit = ins, true
 			}
 		case *ssa.Store:
 			if core.FieldKey(x.Addr) == "CurryDef.result" {
-				resStore = x
+				resStore, hit = x, true
 			}
+		}
+		if hit {
+			if bf != nil && bf != fn {
+				split = true
+			}
+			bf = fn
 		}
 	})
 	if flagTest == nil || fnCall == nil || app == nil || resStore == nil {
 		return false, "Call does not test isDone, append to args, call fn and store result"
+	}
+	if split {
+		return false, "the isDone test, the append, the call of fn and the store of result are spread over several functions"
+	}
+	if bf != f {
+		// the closure holding the steps must be run exactly once per Call
+		min, max := core.PathCount(f, func(ins ssa.Instruction) int {
+			if call, ok := ins.(*ssa.Call); ok {
+				for _, cl := range core.RunsOnce(p, call) {
+					if cl == bf {
+						return 1
+					}
+				}
+			}
+			return 0
+		}, nil)
+		if min != 1 || max != 1 {
+			return false, fmt.Sprintf("the closure holding the steps is run %d..%d times per Call", min, max)
+		}
 	}
 	for name, ins := range map[string]ssa.Instruction{"the isDone test": flagTest, "the append to args": app, "the call of fn": fnCall, "the store of result": resStore} {
 		if !locks[ins].Has(lock, "W") {
 			return false, name + " happens outside the callM critical section (held=" + locks[ins].String() + "): a Call that passed the done test before another Call's MarkDone still appends, re-invokes fn and overwrites the frozen Result"
 		}
 	}
-	if unlockBetween(f, flagTest, fnCall, lock) {
+	if unlockBetween(bf, flagTest, fnCall, lock) {
 		return false, "callM is released between the isDone test and the call of fn"
 	}
 	// fn call dominated by not-done edge; called once; with (receiver, accumulated args...)
@@ -669,7 +698,7 @@ func c20curryCall(p *core.Prog, f *ssa.Function) (bool, string) {
 		return false, fmt.Sprintf("fn is invoked %d..%d times per Call on the not-done path", min, max)
 	}
 	call := fnCall.(*ssa.Call)
-	if len(call.Call.Args) != 2 || call.Call.Args[0] != ssa.Value(f.Params[0]) || core.FieldKey(call.Call.Args[1]) != "CurryDef.args" || !core.InstrDominates(app, fnCall) {
+	if len(call.Call.Args) != 2 || core.Path(call.Call.Args[0]) != base || core.FieldKey(call.Call.Args[1]) != "CurryDef.args" || !core.InstrDominates(app, fnCall) {
 		return false, "fn is not called with (the CurryDef, all accumulated arguments) after appending this Call's arguments"
 	}
 	if resStore.Val != ssa.Value(call) {
